@@ -239,6 +239,8 @@ func execXR(o *Out, id, line string) {
 	var pos int64 // reference position
 	var implRes, scnOps []string
 	closed := false
+	noref := kv["corrupt"] == "1" // a damaged chunk: only the model and the failure contract apply
+	var latched error             // the first failure a Read returned
 	nontrivial := len(recs) >= 3
 	for _, op := range ops {
 		f := strings.Split(op, ":")
@@ -256,7 +258,12 @@ func execXR(o *Out, id, line string) {
 			implRes = append(implRes, fmt.Sprintf("S:%d:%s:%d", p, errClass(e), offAfter))
 			scnOps = append(scnOps, op)
 			o.Count("op-seek-w" + f[2])
-			if !closed {
+			if e == nil {
+				latched = nil
+			}
+			if !closed && noref {
+				// damaged stream: no plaintext reference
+			} else if !closed {
 				ref.Seek(pos, io.SeekStart)
 				rp, re := ref.Seek(off, wh)
 				if (re == nil) != (e == nil) {
@@ -288,8 +295,8 @@ func execXR(o *Out, id, line string) {
 			}
 			offAfter, _, zrOut, _ := xr.VerifState()
 			hintE := 0
-			if k > 0 && zrOut == 0 {
-				hintE = 1
+			if k > 0 && (zrOut == 0 || (e != nil && e != io.EOF)) {
+				hintE = 1 // the inflater reported its end (or its failure) together with the last bytes
 			}
 			implRes = append(implRes, fmt.Sprintf("R:%s:%s:%d", hx(buf[:k]), errClass(e), offAfter))
 			scnOps = append(scnOps, fmt.Sprintf("R:%d:%d:%d", n, k, hintE))
@@ -297,7 +304,19 @@ func execXR(o *Out, id, line string) {
 			if n == 0 {
 				o.Count("op-read-empty")
 			}
-			if !closed {
+			if latched != nil && (k != 0 || e != latched) {
+				o.Violate("C09", fmt.Sprintf("after Read returned %v a later Read returned (%d, %v)", latched, k, e), "not-sticky", line)
+			}
+			if e != nil && e != io.EOF && latched == nil && !closed {
+				latched = e
+				o.Count("read-failed-" + errClass(e))
+				if c := errClass(e); c != "corrupt" && c != "ueof" {
+					o.Violate("C09", "xflate.Reader.Read failed with class "+c, "class", line)
+				}
+			}
+			if !closed && noref {
+				// damaged stream: no plaintext reference
+			} else if !closed {
 				end := int64(len(plain))
 				var want []byte
 				if pos < end {
@@ -326,6 +345,9 @@ func execXR(o *Out, id, line string) {
 			}
 		case "C":
 			e := xr.Close()
+			if latched != nil && e == nil && !closed {
+				o.Violate("C09", fmt.Sprintf("Close returned nil after Read had failed with %v", latched), "close-result", line)
+			}
 			implRes = append(implRes, "C:"+errClass(e))
 			scnOps = append(scnOps, "C")
 			o.Count("op-close")
@@ -497,7 +519,88 @@ func genXR(r *Rand, tier string, emit func(string)) {
 	}
 }
 
+// genXK: streams from the real Writer with one bit flipped inside a chunk (the index stays
+// intact, so NewReader succeeds): failures surface in the skip-forward phase after a Seek
+// into the chunk, in the middle of a sequential read, at the chunk's end.
+func genXK(r *Rand, tier string, emit func(string)) {
+	n := 40
+	if tier == "thorough" {
+		n = 600
+	}
+	for made := 0; made < n; {
+		cfg := randXwCfg(r)
+		if cfg.chunk != 0 && cfg.chunk < 50 {
+			cfg.chunk = 50 + int64(r.Intn(400))
+		}
+		s, p, err := buildXflate(cfg, randXwOps(r, 6, 600))
+		if err != nil {
+			continue
+		}
+		xr, err := xflate.NewReader(bytes.NewReader(s), nil)
+		if err != nil {
+			continue
+		}
+		recs := xr.VerifRecords()
+		var cand []int
+		for j, rec := range recs {
+			prev := int64(0)
+			if j > 0 {
+				prev = recs[j-1].CompOffset
+			}
+			if rec.Type == 1 && rec.CompOffset-prev >= 12 {
+				cand = append(cand, j)
+			}
+		}
+		if len(cand) == 0 {
+			continue
+		}
+		j := cand[r.Intn(len(cand))]
+		var prevC, prevR int64
+		if j > 0 {
+			prevC, prevR = recs[j-1].CompOffset, recs[j-1].RawOffset
+		}
+		c := append([]byte(nil), s...)
+		at := prevC + 1 + int64(r.Intn(int(recs[j].CompOffset-prevC-6)))
+		c[at] ^= 1 << uint(r.Intn(8))
+		if _, err := xflate.NewReader(bytes.NewReader(c), nil); err != nil {
+			continue
+		}
+		made++
+		hi := recs[j].RawOffset
+		for _, ops := range []string{
+			fmt.Sprintf("S:%d:0|R:5|C|R:1", max(prevR, hi-1)),
+			fmt.Sprintf("S:%d:0|R:5|R:5|S:0:0|R:3|C", max(prevR, hi-2)),
+			fmt.Sprintf("S:%d:0|R:100000|R:1|C|C", prevR+(hi-prevR)/2),
+			"R:100000|R:100000|C|R:1",
+			fmt.Sprintf("R:7|S:%d:1|R:9|C", (hi-prevR)/2),
+			fmt.Sprintf("S:%d:0|R:1|S:%d:0|R:4|C", hi, max(prevR, hi-1)),
+		} {
+			emit(fmt.Sprintf("xr corrupt=1 stream=%s plain=%s ops=%s", hx(c), hx(p), ops))
+		}
+		for q := 0; q < 4; q++ {
+			var ops []string
+			for k := 1 + r.Intn(8); k > 0; k-- {
+				switch r.Intn(5) {
+				case 0:
+					ops = append(ops, "C")
+				case 1, 2:
+					ops = append(ops, fmt.Sprintf("S:%d:0", prevR+int64(r.Intn(int(hi-prevR)+2))-1))
+				default:
+					ops = append(ops, fmt.Sprintf("R:%d", r.Pick([]int{0, 1, 9, 100000})))
+				}
+			}
+			emit(fmt.Sprintf("xr corrupt=1 stream=%s plain=%s ops=%s", hx(c), hx(p), strings.Join(ops, "|")))
+		}
+	}
+}
+
 func init() {
+	register(&Family{
+		Name: "xk",
+		Rule: "xflate.Reader Seek/Read/Close sequences on streams from the real Writer with one bit flipped inside a chunk (index intact): seeks to the last bytes of the damaged chunk (failure in the skip-forward phase), sequential reads through it, seeks away and back, Close after the failure, random sequences. Compared call by call with the Reader model over the measured per-segment inflater behaviour; failure contract (class, sticky, Close result) evaluated on the trace. Distinct by (stream prefix, ops)",
+		Gen:  genXK,
+		Exec: execXR,
+	})
 	register(&Family{
 		Name: "xr",
 		Rule: "xflate.Reader op sequences (Seek/Read/Close) on streams written by the real Writer with random configuration and flush schedule plus fixed vectors with empty chunks and several indexes: all sequences up to a fixed depth over a boundary-value alphabet, then random sequences; a scenario is non-trivial when the stream has >= 3 records and >= 2 ops; distinct = distinct (stream prefix, op sequence)",
